@@ -262,6 +262,80 @@ pub fn run(out: &mut Out, tier: &str, seed: u64) {
             out.case("expect", &["text that mimics an error position suffix", &hex(doc.as_bytes())], &r.map(|p| format!("panic: {p}")).unwrap_or("true".into()), true);
         }
     }
+    // what a lazy iterator or get hands out borrows from the INPUT (lifetime 'de), not from the iterator: keys and
+    // values are read after the iterator is gone and the allocator has been churned, for every carrier and for
+    // documents on both sides of the 24-byte inline limit of FastStr
+    for doc in ["{\"kkkk\":1}", "{\"k\":[1,2],\"m\":\"v\"}", "[1,\"ab\",[3]]", "{\"key_longer_than_the_inline_limit\":[10,20,30],\"second\":{\"x\":\"yyyyyyyyyyyyyyyyyyyyyyyyyyyy\"}}", "{\"a\":{\"b\":1}}", "[[1,2],[3,4]]"] {
+        let churn = || {
+            let junk: Vec<Vec<u8>> = (0..64).map(|i| vec![0xC7u8.wrapping_add(i as u8 % 3); 16 + (i % 5) * 8]).collect();
+            junk.len()
+        };
+        let r = guarded(|| {
+            let mut seen: Vec<String> = Vec::new();
+            let b = bytes::Bytes::copy_from_slice(doc.as_bytes());
+            let f = faststr::FastStr::new(doc);
+            // object / array iterators over each carrier
+            macro_rules! run {
+                ($carrier:expr, $tag:expr) => {{
+                    let items: Vec<(String, Option<std::borrow::Cow<str>>, LazyValue)> = {
+                        let mut v = Vec::new();
+                        for x in sonic_rs::to_object_iter($carrier).flatten() {
+                            v.push(("obj".to_string(), Some(x.0.into()), x.1));
+                        }
+                        for x in sonic_rs::to_array_iter($carrier).flatten() {
+                            v.push(("arr".to_string(), None, x));
+                        }
+                        v
+                    };
+                    let _ = churn();
+                    for (kind, k, val) in &items {
+                        seen.push(format!("{} {kind} {:?} {}", $tag, k.as_deref(), val.as_raw_str()));
+                    }
+                    // one level deeper: the children of each item, taken from iterators that are dropped at once
+                    for (_, _, val) in items {
+                        let kids: Vec<(Option<std::borrow::Cow<str>>, LazyValue)> = {
+                            let mut v = Vec::new();
+                            if let Some(it) = val.clone().into_object_iter() {
+                                for x in it.flatten() {
+                                    v.push((Some(x.0.into()), x.1));
+                                }
+                            }
+                            if let Some(it) = val.into_array_iter() {
+                                for x in it.flatten() {
+                                    v.push((None, x));
+                                }
+                            }
+                            v
+                        };
+                        let _ = churn();
+                        for (k, c) in &kids {
+                            seen.push(format!("{} child {:?} {}", $tag, k.as_deref(), c.as_raw_str()));
+                        }
+                    }
+                }};
+            }
+            run!(doc.as_bytes(), "x");
+            let base = seen.clone();
+            seen.clear();
+            run!(&b, "x");
+            let via_bytes = seen.clone();
+            seen.clear();
+            run!(&f, "x");
+            let via_faststr = seen.clone();
+            seen.clear();
+            run!(doc, "x");
+            if via_bytes != base {
+                format!("&Bytes: {:?} instead of {:?}", via_bytes, base)
+            } else if via_faststr != base {
+                format!("&FastStr: {:?} instead of {:?}", via_faststr, base)
+            } else if seen != base {
+                format!("&str: {:?} instead of {:?}", seen, base)
+            } else {
+                "true".to_string()
+            }
+        });
+        out.case("expect", &["items of lazy iterators are readable after the iterator is dropped", doc], &r.unwrap_or_else(|p| format!("panic: {p}")), true);
+    }
     // very long number literals (beyond every digit buffer of the slow paths), near midpoints of
     // adjacent doubles so that the decimal fallback is taken, in every position of a document
     for digits in [700usize, 766, 767, 768, 769, 770, 800, 1100, 5000] {
